@@ -17,11 +17,16 @@ def run(tier):
     rep.cov["traces_validated_against_impl"] += len(big)
     # (growth) deep decoding as an IDS composes the parsers: ClientHello -> extension list, ServerKeyExchange -> parameters + signature
     common.mc_replay(rep, binary, PROP, "MC_Deep", keyf=common.default_key, run="deep", nchunks=4)
+    # (growth) REAL traffic: the repository's own test vectors (captures of ClientHello / ServerHello / Certificate / ServerKeyExchange /
+    # ... flights, extension blocks, DH and ECDH parameters, SCT lists), their tails and truncations, through 29 entry points:
+    # the crate's answer is compared IN FULL with the answer TLC computes from the specification
+    common.captures(rep, binary, PROP)
     return rep.finish("model_checking",
                       "cases = RFC encodings of ~700 abstract handshake values (17 variants, per-field boundary sets incl. "
                       "0/1/32/255/256/65535) with suffixes, each public body parser, every shortened hl of the small values, "
                       "lying hl (0,1,true-1,true+1,max), the property's rejection list, all 240 unknown type codes; 10 messages at the u24 maximum "
-                      "(16 MiB bodies, TLC evaluating a lazily defined input); deep decoding compositions; "
+                      "(16 MiB bodies, TLC evaluating a lazily defined input); deep decoding compositions; the repository's ~42 test vectors x tails x truncations x 29 entry points "
+                      "(impl -> spec, full comparison); "
                       "distinct = (function, pin, outcome, value size)")
 
 
